@@ -263,7 +263,50 @@ def run_usage(case):
     return res
 
 
-KINDS = {"block": run_block, "usage": run_usage}
+def run_print(case):
+    """Process-wide numpy print options abbreviate long arrays ("[0 1 ... 6 7]"); they must have no influence on the maps.  In d=8, every ordered
+    pair (A then B) of index-array configurations that agree in their first and last two entries, under abbreviating print options and under the
+    default ones: fold and bounds test against first principles (per coordinate)."""
+    from tempest.mcmc import apply_boundary_conditions, check_bounds
+
+    res = Res()
+    d = 8
+    sets = [[0, 1, 2, 3, 6, 7], [0, 1, 4, 5, 6, 7], [0, 1, 2, 5, 6, 7], [0, 1, 3, 4, 6, 7]]
+    cfgs = [(np.array(a), None) for a in sets] + [(None, np.array(a)) for a in sets] + [(np.array([0, 1, 2, 3, 4, 5, 6]), None), (np.array([0, 1, 2, 3, 4, 6, 7]), None)]
+    pts = []
+    for j in range(d):
+        for v in (-0.25, 1.5, 0.5):
+            row = np.full(d, 0.5)
+            row[j] = v
+            pts.append(row)
+    P = np.array(pts)
+    ctxs = {"abbreviated": dict(threshold=5, edgeitems=2), "default": {}}
+    for mode, opts in ctxs.items():
+        with np.printoptions(**opts):
+            for ia, A in enumerate(cfgs):
+                for ib, B in enumerate(cfgs):
+                    if case.get("only") and case["only"] != [mode, ia, ib]:
+                        continue
+                    for which, (per, ref) in (("first", A), ("second", B)):
+                        out = apply_boundary_conditions(P.copy(), per, ref)
+                        ok = np.asarray(check_bounds(out, per, ref))
+                        res.evals += 1
+                        pset = set() if per is None else set(int(i) for i in per)
+                        rset = set() if ref is None else set(int(i) for i in ref)
+                        for r, row in enumerate(P):
+                            want_row = np.array([_fold_exact(row[i], "p" if i in pset else ("r" if i in rset else "s")) for i in range(d)])
+                            want_ok = all(0.0 <= want_row[i] <= 1.0 for i in range(d) if i not in pset and i not in rset)
+                            if not np.allclose(out[r], want_row, atol=1e-15) or bool(ok[r]) != want_ok:
+                                res.violate(f"printoptions:{mode}", f"numpy print options {opts or 'default'}; configuration periodic={None if per is None else per.tolist()} reflective={None if ref is None else ref.tolist()} "
+                                            f"used {which} of the pair ({ia},{ib}): point {row.tolist()} -> {out[r].tolist()} accepted={bool(ok[r])}, expected {want_row.tolist()} accepted={want_ok}",
+                                            {"kind": "print", "only": [mode, ia, ib]})
+                                break
+                    res.outcome(("print", mode, ia, ib), nontrivial=ia != ib)
+    res.states += 1
+    return res
+
+
+KINDS = {"print": run_print, "block": run_block, "usage": run_usage}
 
 
 def plan(ctx):
@@ -297,5 +340,6 @@ def plan(ctx):
           for k in ("strided", "revstrided", "fortran", "readonly", "f32", "f16", "longdouble")]
     ctx.bounds["point_array_forms"] = ["strided", "revstrided", "fortran", "readonly", "f32", "f16", "longdouble"]
     ctx.explore("point-array-forms", vf, chunksize=8)
+    ctx.explore("numpy-print-options", [{"kind": "print"}])
     # each case runs in ONE process in a fixed order, so state leaking between kernel instances is part of the explored history
     ctx.explore("kernel-usage-of-the-maps", [{"kind": "usage", "kernel": k, "A": None} for k in ("rwm", "tpcn")])
